@@ -46,6 +46,84 @@ ConcArenaProofs.vos ConcArenaProofs.vok ConcArenaProofs.required_vos: ConcArenaP
 ConcInternProofs.vo ConcInternProofs.glob ConcInternProofs.v.beautified ConcInternProofs.required_vo: ConcInternProofs.v Base.vo Arena.vo ArenaProofs.vo Conc.vo ConcInv.vo
 ConcInternProofs.vio: ConcInternProofs.v Base.vio Arena.vio ArenaProofs.vio Conc.vio ConcInv.vio
 ConcInternProofs.vos ConcInternProofs.vok ConcInternProofs.required_vos: ConcInternProofs.v Base.vos Arena.vos ArenaProofs.vos Conc.vos ConcInv.vos
+ConcTheorems.vo ConcTheorems.glob ConcTheorems.v.beautified ConcTheorems.required_vo: ConcTheorems.v Base.vo Arena.vo ArenaProofs.vo Conc.vo ConcInv.vo ConcArenaProofs.vo ConcInternProofs.vo
+ConcTheorems.vio: ConcTheorems.v Base.vio Arena.vio ArenaProofs.vio Conc.vio ConcInv.vio ConcArenaProofs.vio ConcInternProofs.vio
+ConcTheorems.vos ConcTheorems.vok ConcTheorems.required_vos: ConcTheorems.v Base.vos Arena.vos ArenaProofs.vos Conc.vos ConcInv.vos ConcArenaProofs.vos ConcInternProofs.vos
+Facts.vo Facts.glob Facts.v.beautified Facts.required_vo: Facts.v 
+Facts.vio: Facts.v 
+Facts.vos Facts.vok Facts.required_vos: Facts.v 
+Markers.vo Markers.glob Markers.v.beautified Markers.required_vo: Markers.v Facts.vo
+Markers.vio: Markers.v Facts.vio
+Markers.vos Markers.vok Markers.required_vos: Markers.v Facts.vos
+Loans.vo Loans.glob Loans.v.beautified Loans.required_vo: Loans.v Facts.vo
+Loans.vio: Loans.v Facts.vio
+Loans.vos Loans.vok Loans.required_vos: Loans.v Facts.vos
+Forward.vo Forward.glob Forward.v.beautified Forward.required_vo: Forward.v Facts.vo
+Forward.vio: Forward.v Facts.vio
+Forward.vos Forward.vok Forward.required_vos: Forward.v Facts.vos
+Props/C01.vo Props/C01.glob Props/C01.v.beautified Props/C01.required_vo: Props/C01.v Base.vo Arena.vo ArenaProofs.vo Rodeo.vo RodeoInv.vo RodeoProofs.vo ThreadedInv.vo CloneSerdeProofs.vo ThreadedProofs.vo IterEqProofs.vo WorldProofs.vo
+Props/C01.vio: Props/C01.v Base.vio Arena.vio ArenaProofs.vio Rodeo.vio RodeoInv.vio RodeoProofs.vio ThreadedInv.vio CloneSerdeProofs.vio ThreadedProofs.vio IterEqProofs.vio WorldProofs.vio
+Props/C01.vos Props/C01.vok Props/C01.required_vos: Props/C01.v Base.vos Arena.vos ArenaProofs.vos Rodeo.vos RodeoInv.vos RodeoProofs.vos ThreadedInv.vos CloneSerdeProofs.vos ThreadedProofs.vos IterEqProofs.vos WorldProofs.vos
+Props/C02.vo Props/C02.glob Props/C02.v.beautified Props/C02.required_vo: Props/C02.v Base.vo Arena.vo ArenaProofs.vo Rodeo.vo RodeoInv.vo RodeoProofs.vo ThreadedInv.vo CloneSerdeProofs.vo ThreadedProofs.vo IterEqProofs.vo WorldProofs.vo
+Props/C02.vio: Props/C02.v Base.vio Arena.vio ArenaProofs.vio Rodeo.vio RodeoInv.vio RodeoProofs.vio ThreadedInv.vio CloneSerdeProofs.vio ThreadedProofs.vio IterEqProofs.vio WorldProofs.vio
+Props/C02.vos Props/C02.vok Props/C02.required_vos: Props/C02.v Base.vos Arena.vos ArenaProofs.vos Rodeo.vos RodeoInv.vos RodeoProofs.vos ThreadedInv.vos CloneSerdeProofs.vos ThreadedProofs.vos IterEqProofs.vos WorldProofs.vos
+Props/C03.vo Props/C03.glob Props/C03.v.beautified Props/C03.required_vo: Props/C03.v Base.vo Arena.vo Conc.vo ConcInv.vo ConcArenaProofs.vo ConcInternProofs.vo ConcTheorems.vo
+Props/C03.vio: Props/C03.v Base.vio Arena.vio Conc.vio ConcInv.vio ConcArenaProofs.vio ConcInternProofs.vio ConcTheorems.vio
+Props/C03.vos Props/C03.vok Props/C03.required_vos: Props/C03.v Base.vos Arena.vos Conc.vos ConcInv.vos ConcArenaProofs.vos ConcInternProofs.vos ConcTheorems.vos
+Props/C04.vo Props/C04.glob Props/C04.v.beautified Props/C04.required_vo: Props/C04.v Base.vo Arena.vo ArenaProofs.vo Rodeo.vo RodeoInv.vo RodeoProofs.vo ThreadedInv.vo CloneSerdeProofs.vo ThreadedProofs.vo IterEqProofs.vo WorldProofs.vo
+Props/C04.vio: Props/C04.v Base.vio Arena.vio ArenaProofs.vio Rodeo.vio RodeoInv.vio RodeoProofs.vio ThreadedInv.vio CloneSerdeProofs.vio ThreadedProofs.vio IterEqProofs.vio WorldProofs.vio
+Props/C04.vos Props/C04.vok Props/C04.required_vos: Props/C04.v Base.vos Arena.vos ArenaProofs.vos Rodeo.vos RodeoInv.vos RodeoProofs.vos ThreadedInv.vos CloneSerdeProofs.vos ThreadedProofs.vos IterEqProofs.vos WorldProofs.vos
+Props/C05.vo Props/C05.glob Props/C05.v.beautified Props/C05.required_vo: Props/C05.v Base.vo Arena.vo Conc.vo ConcInv.vo ConcArenaProofs.vo
+Props/C05.vio: Props/C05.v Base.vio Arena.vio Conc.vio ConcInv.vio ConcArenaProofs.vio
+Props/C05.vos Props/C05.vok Props/C05.required_vos: Props/C05.v Base.vos Arena.vos Conc.vos ConcInv.vos ConcArenaProofs.vos
+Props/C06.vo Props/C06.glob Props/C06.v.beautified Props/C06.required_vo: Props/C06.v Base.vo Arena.vo ArenaProofs.vo Rodeo.vo RodeoInv.vo RodeoProofs.vo ThreadedInv.vo CloneSerdeProofs.vo ThreadedProofs.vo IterEqProofs.vo WorldProofs.vo
+Props/C06.vio: Props/C06.v Base.vio Arena.vio ArenaProofs.vio Rodeo.vio RodeoInv.vio RodeoProofs.vio ThreadedInv.vio CloneSerdeProofs.vio ThreadedProofs.vio IterEqProofs.vio WorldProofs.vio
+Props/C06.vos Props/C06.vok Props/C06.required_vos: Props/C06.v Base.vos Arena.vos ArenaProofs.vos Rodeo.vos RodeoInv.vos RodeoProofs.vos ThreadedInv.vos CloneSerdeProofs.vos ThreadedProofs.vos IterEqProofs.vos WorldProofs.vos
+Props/C07.vo Props/C07.glob Props/C07.v.beautified Props/C07.required_vo: Props/C07.v Base.vo Arena.vo ArenaProofs.vo Rodeo.vo RodeoInv.vo RodeoProofs.vo ThreadedInv.vo CloneSerdeProofs.vo ThreadedProofs.vo IterEqProofs.vo WorldProofs.vo
+Props/C07.vio: Props/C07.v Base.vio Arena.vio ArenaProofs.vio Rodeo.vio RodeoInv.vio RodeoProofs.vio ThreadedInv.vio CloneSerdeProofs.vio ThreadedProofs.vio IterEqProofs.vio WorldProofs.vio
+Props/C07.vos Props/C07.vok Props/C07.required_vos: Props/C07.v Base.vos Arena.vos ArenaProofs.vos Rodeo.vos RodeoInv.vos RodeoProofs.vos ThreadedInv.vos CloneSerdeProofs.vos ThreadedProofs.vos IterEqProofs.vos WorldProofs.vos
 Props/C08.vo Props/C08.glob Props/C08.v.beautified Props/C08.required_vo: Props/C08.v Base.vo Arena.vo ArenaProofs.vo
 Props/C08.vio: Props/C08.v Base.vio Arena.vio ArenaProofs.vio
 Props/C08.vos Props/C08.vok Props/C08.required_vos: Props/C08.v Base.vos Arena.vos ArenaProofs.vos
+Props/C09.vo Props/C09.glob Props/C09.v.beautified Props/C09.required_vo: Props/C09.v Base.vo Arena.vo Conc.vo ConcInv.vo ConcArenaProofs.vo ConcTheorems.vo
+Props/C09.vio: Props/C09.v Base.vio Arena.vio Conc.vio ConcInv.vio ConcArenaProofs.vio ConcTheorems.vio
+Props/C09.vos Props/C09.vok Props/C09.required_vos: Props/C09.v Base.vos Arena.vos Conc.vos ConcInv.vos ConcArenaProofs.vos ConcTheorems.vos
+Props/C10.vo Props/C10.glob Props/C10.v.beautified Props/C10.required_vo: Props/C10.v Base.vo Arena.vo ArenaProofs.vo Rodeo.vo RodeoInv.vo RodeoProofs.vo ThreadedInv.vo CloneSerdeProofs.vo ThreadedProofs.vo IterEqProofs.vo WorldProofs.vo
+Props/C10.vio: Props/C10.v Base.vio Arena.vio ArenaProofs.vio Rodeo.vio RodeoInv.vio RodeoProofs.vio ThreadedInv.vio CloneSerdeProofs.vio ThreadedProofs.vio IterEqProofs.vio WorldProofs.vio
+Props/C10.vos Props/C10.vok Props/C10.required_vos: Props/C10.v Base.vos Arena.vos ArenaProofs.vos Rodeo.vos RodeoInv.vos RodeoProofs.vos ThreadedInv.vos CloneSerdeProofs.vos ThreadedProofs.vos IterEqProofs.vos WorldProofs.vos
+Props/C11.vo Props/C11.glob Props/C11.v.beautified Props/C11.required_vo: Props/C11.v Base.vo Keys.vo
+Props/C11.vio: Props/C11.v Base.vio Keys.vio
+Props/C11.vos Props/C11.vok Props/C11.required_vos: Props/C11.v Base.vos Keys.vos
+Props/C12.vo Props/C12.glob Props/C12.v.beautified Props/C12.required_vo: Props/C12.v Base.vo Arena.vo ArenaProofs.vo Rodeo.vo RodeoInv.vo RodeoProofs.vo ThreadedInv.vo CloneSerdeProofs.vo ThreadedProofs.vo IterEqProofs.vo WorldProofs.vo
+Props/C12.vio: Props/C12.v Base.vio Arena.vio ArenaProofs.vio Rodeo.vio RodeoInv.vio RodeoProofs.vio ThreadedInv.vio CloneSerdeProofs.vio ThreadedProofs.vio IterEqProofs.vio WorldProofs.vio
+Props/C12.vos Props/C12.vok Props/C12.required_vos: Props/C12.v Base.vos Arena.vos ArenaProofs.vos Rodeo.vos RodeoInv.vos RodeoProofs.vos ThreadedInv.vos CloneSerdeProofs.vos ThreadedProofs.vos IterEqProofs.vos WorldProofs.vos
+Props/C13.vo Props/C13.glob Props/C13.v.beautified Props/C13.required_vo: Props/C13.v Base.vo Arena.vo ArenaProofs.vo Rodeo.vo RodeoInv.vo RodeoProofs.vo ThreadedInv.vo CloneSerdeProofs.vo ThreadedProofs.vo IterEqProofs.vo WorldProofs.vo
+Props/C13.vio: Props/C13.v Base.vio Arena.vio ArenaProofs.vio Rodeo.vio RodeoInv.vio RodeoProofs.vio ThreadedInv.vio CloneSerdeProofs.vio ThreadedProofs.vio IterEqProofs.vio WorldProofs.vio
+Props/C13.vos Props/C13.vok Props/C13.required_vos: Props/C13.v Base.vos Arena.vos ArenaProofs.vos Rodeo.vos RodeoInv.vos RodeoProofs.vos ThreadedInv.vos CloneSerdeProofs.vos ThreadedProofs.vos IterEqProofs.vos WorldProofs.vos
+Props/C14.vo Props/C14.glob Props/C14.v.beautified Props/C14.required_vo: Props/C14.v Base.vo Arena.vo ArenaProofs.vo Rodeo.vo RodeoInv.vo RodeoProofs.vo ThreadedInv.vo CloneSerdeProofs.vo ThreadedProofs.vo IterEqProofs.vo WorldProofs.vo
+Props/C14.vio: Props/C14.v Base.vio Arena.vio ArenaProofs.vio Rodeo.vio RodeoInv.vio RodeoProofs.vio ThreadedInv.vio CloneSerdeProofs.vio ThreadedProofs.vio IterEqProofs.vio WorldProofs.vio
+Props/C14.vos Props/C14.vok Props/C14.required_vos: Props/C14.v Base.vos Arena.vos ArenaProofs.vos Rodeo.vos RodeoInv.vos RodeoProofs.vos ThreadedInv.vos CloneSerdeProofs.vos ThreadedProofs.vos IterEqProofs.vos WorldProofs.vos
+Props/C15.vo Props/C15.glob Props/C15.v.beautified Props/C15.required_vo: Props/C15.v Base.vo Arena.vo ArenaProofs.vo Rodeo.vo RodeoInv.vo RodeoProofs.vo ThreadedInv.vo CloneSerdeProofs.vo ThreadedProofs.vo IterEqProofs.vo WorldProofs.vo
+Props/C15.vio: Props/C15.v Base.vio Arena.vio ArenaProofs.vio Rodeo.vio RodeoInv.vio RodeoProofs.vio ThreadedInv.vio CloneSerdeProofs.vio ThreadedProofs.vio IterEqProofs.vio WorldProofs.vio
+Props/C15.vos Props/C15.vok Props/C15.required_vos: Props/C15.v Base.vos Arena.vos ArenaProofs.vos Rodeo.vos RodeoInv.vos RodeoProofs.vos ThreadedInv.vos CloneSerdeProofs.vos ThreadedProofs.vos IterEqProofs.vos WorldProofs.vos
+Props/C16.vo Props/C16.glob Props/C16.v.beautified Props/C16.required_vo: Props/C16.v Base.vo Arena.vo ArenaProofs.vo Rodeo.vo RodeoInv.vo RodeoProofs.vo ThreadedInv.vo CloneSerdeProofs.vo ThreadedProofs.vo IterEqProofs.vo WorldProofs.vo
+Props/C16.vio: Props/C16.v Base.vio Arena.vio ArenaProofs.vio Rodeo.vio RodeoInv.vio RodeoProofs.vio ThreadedInv.vio CloneSerdeProofs.vio ThreadedProofs.vio IterEqProofs.vio WorldProofs.vio
+Props/C16.vos Props/C16.vok Props/C16.required_vos: Props/C16.v Base.vos Arena.vos ArenaProofs.vos Rodeo.vos RodeoInv.vos RodeoProofs.vos ThreadedInv.vos CloneSerdeProofs.vos ThreadedProofs.vos IterEqProofs.vos WorldProofs.vos
+Props/C17.vo Props/C17.glob Props/C17.v.beautified Props/C17.required_vo: Props/C17.v Base.vo Arena.vo ArenaProofs.vo Rodeo.vo RodeoInv.vo RodeoProofs.vo ThreadedInv.vo CloneSerdeProofs.vo ThreadedProofs.vo IterEqProofs.vo WorldProofs.vo
+Props/C17.vio: Props/C17.v Base.vio Arena.vio ArenaProofs.vio Rodeo.vio RodeoInv.vio RodeoProofs.vio ThreadedInv.vio CloneSerdeProofs.vio ThreadedProofs.vio IterEqProofs.vio WorldProofs.vio
+Props/C17.vos Props/C17.vok Props/C17.required_vos: Props/C17.v Base.vos Arena.vos ArenaProofs.vos Rodeo.vos RodeoInv.vos RodeoProofs.vos ThreadedInv.vos CloneSerdeProofs.vos ThreadedProofs.vos IterEqProofs.vos WorldProofs.vos
+Props/C18.vo Props/C18.glob Props/C18.v.beautified Props/C18.required_vo: Props/C18.v Base.vo Arena.vo ArenaProofs.vo Rodeo.vo RodeoInv.vo RodeoProofs.vo ThreadedInv.vo CloneSerdeProofs.vo ThreadedProofs.vo IterEqProofs.vo WorldProofs.vo
+Props/C18.vio: Props/C18.v Base.vio Arena.vio ArenaProofs.vio Rodeo.vio RodeoInv.vio RodeoProofs.vio ThreadedInv.vio CloneSerdeProofs.vio ThreadedProofs.vio IterEqProofs.vio WorldProofs.vio
+Props/C18.vos Props/C18.vok Props/C18.required_vos: Props/C18.v Base.vos Arena.vos ArenaProofs.vos Rodeo.vos RodeoInv.vos RodeoProofs.vos ThreadedInv.vos CloneSerdeProofs.vos ThreadedProofs.vos IterEqProofs.vos WorldProofs.vos
+Props/C19.vo Props/C19.glob Props/C19.v.beautified Props/C19.required_vo: Props/C19.v Facts.vo Markers.vo
+Props/C19.vio: Props/C19.v Facts.vio Markers.vio
+Props/C19.vos Props/C19.vok Props/C19.required_vos: Props/C19.v Facts.vos Markers.vos
+Props/C20.vo Props/C20.glob Props/C20.v.beautified Props/C20.required_vo: Props/C20.v Facts.vo Loans.vo
+Props/C20.vio: Props/C20.v Facts.vio Loans.vio
+Props/C20.vos Props/C20.vok Props/C20.required_vos: Props/C20.v Facts.vos Loans.vos
+Props/C16F.vo Props/C16F.glob Props/C16F.v.beautified Props/C16F.required_vo: Props/C16F.v Facts.vo Forward.vo
+Props/C16F.vio: Props/C16F.v Facts.vio Forward.vio
+Props/C16F.vos Props/C16F.vok Props/C16F.required_vos: Props/C16F.v Facts.vos Forward.vos
+Props/C17F.vo Props/C17F.glob Props/C17F.v.beautified Props/C17F.required_vo: Props/C17F.v Facts.vo Forward.vo
+Props/C17F.vio: Props/C17F.v Facts.vio Forward.vio
+Props/C17F.vos Props/C17F.vok Props/C17F.required_vos: Props/C17F.v Facts.vos Forward.vos
